@@ -25,7 +25,14 @@ import (
 	"verif/harness/memnet"
 )
 
-const c07Check = "c07-upgrade"
+// Run with VERIF_AS=C16 the check reports under C16 (the socket's API used from several goroutines while the library swaps transports:
+// a call that never returns is a deadlock).
+var c07Prop, c07Check = func() (string, string) {
+	if envStr("VERIF_AS", "") == "C16" {
+		return "C16", "c16-send-during-upgrade"
+	}
+	return "C07", "c07-upgrade"
+}()
 
 type c07Msg struct {
 	Dir    string `json:"dir"` // c2s | s2c
@@ -48,6 +55,9 @@ type c07Case struct {
 	ParkSendSpins int `json:"park_send_spins"`
 	// the server's swap is held back that long (a busy server: the UPGRADE packet is processed late), with messages sent meanwhile
 	ParkServerMs int `json:"park_server_ms"`
+	// forced schedule: the first client Send of the burst fired at the client's swap is held under the socket's read lock (yield point) for 5000
+	// scheduler yields, and the swapping goroutine goes on only when that Send is there, so that it asks for the write lock behind it
+	ParkClientSend bool `json:"park_client_send"`
 }
 
 func (c c07Case) class() string {
@@ -60,7 +70,7 @@ func (c c07Case) class() string {
 func evalC07(c c07Case) (f *Failure, nontrivial bool) {
 	class := c.class()
 	fail := func(clause, detail string) *Failure {
-		return &Failure{Property: "C07", Check: c07Check, Clause: clause, Class: class, Detail: detail, Case: c}
+		return &Failure{Property: c07Prop, Check: c07Check, Clause: clause, Class: class, Detail: detail, Case: c}
 	}
 	journal(c07Check, class, c)
 	var res *Failure
@@ -81,16 +91,29 @@ func evalC07(c c07Case) (f *Failure, nontrivial bool) {
 		mu.Lock()
 		seq++
 		id := fmt.Sprintf("%s-%s-%d", dir, tag, seq)
+		// a burst message fired at the swap travels with a companion in ONE Send call (a batch, as an event with an attachment is)
+		id2 := ""
+		if tag == "swap" {
+			id2 = id + "b"
+		}
 		if dir == "c2s" {
 			sentC[id] = true
+			if id2 != "" {
+				sentC[id2] = true
+			}
 		} else {
 			sentS[id] = true
+			if id2 != "" {
+				sentS[id2] = true
+			}
 		}
 		s, cl := srv, cli
 		if (dir == "c2s" && cl == nil) || (dir == "s2c" && s == nil) {
 			// the endpoint is not known to the harness yet (a hook can fire before Dial has returned): nothing is sent
 			delete(sentC, id)
 			delete(sentS, id)
+			delete(sentC, id2)
+			delete(sentS, id2)
 			mu.Unlock()
 			return
 		}
@@ -100,10 +123,15 @@ func evalC07(c c07Case) (f *Failure, nontrivial bool) {
 			data = append(append(data, '|'), bytes.Repeat([]byte{'x'}, pad)...)
 		}
 		p, _ := parser.NewPacket(parser.PacketTypeMessage, binary, data)
+		ps := []*parser.Packet{p}
+		if id2 != "" {
+			p2, _ := parser.NewPacket(parser.PacketTypeMessage, !binary, []byte(id2))
+			ps = append(ps, p2)
+		}
 		if dir == "c2s" {
-			cl.Send(p)
+			cl.Send(ps...)
 		} else {
-			s.Send(p)
+			s.Send(ps...)
 		}
 	}
 	send = func(dir string, binary bool, tag string) { sendPad(dir, binary, tag, 0) }
@@ -114,11 +142,24 @@ func evalC07(c c07Case) (f *Failure, nontrivial bool) {
 		return string(data)
 	}
 	swapSeen := map[string]bool{}
-	var sendParked atomic.Bool
-	var sendsAfterSwapImminent atomic.Int64
+	var sendParked, clientSendParked atomic.Bool
+	var sendsAfterSwapImminent, clientSendsAfterSwapImminent atomic.Int64
 	hooks := hookSet{point: func(site string) {
 		var side string
 		switch site {
+		case "eio.clientSocket.Send:locked":
+			// A client Send that holds the socket's read lock while the client's swap is imminent stays there for a while: the swap arrives and waits for
+			// the write lock behind it (with the clean lock discipline that is all that happens).
+			mu.Lock()
+			imminent := swapSeen["client"]
+			mu.Unlock()
+			if (c.BurstSwap == "client" || c.BurstSwap == "both") && c.ParkClientSend && imminent && clientSendsAfterSwapImminent.Add(1) == 1 {
+				clientSendParked.Store(true)
+				for i := 0; i < 5000; i++ {
+					runtime.Gosched()
+				}
+			}
+			return
 		case "polling.ServerTransport.Send:enter":
 			mu.Lock()
 			imminent := swapSeen["server"]
@@ -156,7 +197,12 @@ func evalC07(c c07Case) (f *Failure, nontrivial bool) {
 				go send(dir, i%2 == 1, "swap")
 			}
 		}
-		if side == "server" && c.ParkSendSpins > 0 && (c.BurstSwap == "server" || c.BurstSwap == "both") {
+		if side == "client" && c.ParkClientSend && (c.BurstSwap == "client" || c.BurstSwap == "both") {
+			// go on to the swap only when a burst Send sits under its read lock
+			for i := 0; i < 50000 && !clientSendParked.Load(); i++ {
+				runtime.Gosched()
+			}
+		} else if side == "server" && c.ParkSendSpins > 0 && (c.BurstSwap == "server" || c.BurstSwap == "both") {
 			for i := 0; i < 50000 && !sendParked.Load(); i++ {
 				runtime.Gosched()
 			}
@@ -397,6 +443,9 @@ func genC07Case(t *rapid.T) c07Case {
 	if rapid.IntRange(0, 5).Draw(t, "parkClient") == 0 {
 		c.ParkClientMs = 3000
 	}
+	if (c.BurstSwap == "client" || c.BurstSwap == "both") && c.ParkClientMs == 0 {
+		c.ParkClientSend = rapid.Bool().Draw(t, "parkClientSend")
+	}
 	if (c.BurstSwap == "server" || c.BurstSwap == "both") && rapid.Bool().Draw(t, "parkSend") {
 		c.ParkSendSpins = rapid.SampledFrom([]int{2000, 20000}).Draw(t, "parkSendSpins")
 	}
@@ -408,12 +457,12 @@ func genC07Case(t *rapid.T) c07Case {
 		// A disturbed WebSocket makes the library wait for the WebSocket library's 5 s close timeouts with the transport lock held;
 		// concurrent Sends then wait for that lock, which freezes virtual time (DESIGN.md §2.2). Disturbed upgrades are therefore
 		// exercised without traffic inside the window; the traffic follows at 15 s.
-		c.BurstSwap, c.BurstDone, c.ParkSwap, c.ParkClientMs, c.ParkSendSpins, c.ParkServerMs = "none", false, false, 0, 0, 0
+		c.BurstSwap, c.BurstDone, c.ParkSwap, c.ParkClientMs, c.ParkSendSpins, c.ParkServerMs, c.ParkClientSend = "none", false, false, 0, 0, 0, false
 		return c
 	}
 	if c.ParkClientMs == 0 && rapid.IntRange(0, 5).Draw(t, "parkServer") == 0 {
 		// a busy server: the swap 2.5 s late (its own UpgradeTimeout is 5 s), a few messages each way in the meantime
-		c.ParkServerMs, c.BurstSwap, c.ParkSwap, c.ParkSendSpins = 2500, "none", false, 0
+		c.ParkServerMs, c.BurstSwap, c.ParkSwap, c.ParkSendSpins, c.ParkClientSend = 2500, "none", false, 0, false
 		for i, n := 0, rapid.IntRange(1, 4).Draw(t, "lateMsgs"); i < n; i++ {
 			c.Msgs = append(c.Msgs, c07Msg{Dir: rapid.SampledFrom([]string{"s2c", "s2c", "c2s"}).Draw(t, "lateDir"), AtUs: 1000 * rapid.IntRange(300, 2300).Draw(t, "lateAt"), Binary: rapid.Bool().Draw(t, "lateBin")})
 		}
@@ -428,11 +477,11 @@ func genC07Case(t *rapid.T) c07Case {
 func TestC07_Upgrade(t *testing.T) {
 	setT(t)
 	defer startWatchdog(t, 90*time.Second)()
-	ev := NewEv(t, "C07", c07Check, "rapid on the virtual-time network at Engine.IO level: 0..30 numbered text/binary messages in both directions at instants spread over the upgrade (microsecond resolution), "+
+	ev := NewEv(t, c07Prop, c07Check, "rapid on the virtual-time network at Engine.IO level: 0..30 numbered text/binary messages in both directions at instants spread over the upgrade (microsecond resolution), "+
 		"latency 0..20 ms on the WebSocket link, the client's swap optionally held back for 3 s (longer than its own 2 s UpgradeTimeout, shorter than the server's), one message of 1000..200000 bytes each way after the upgrade, bursts fired from the yield hooks right before the transport swap on either side (optionally parking the swapping goroutine) and from UpgradeDone; "+
 		"disturbed upgrades: WebSocket link cut at a drawn byte offset 0..400 in either direction (handshake, probe, pong, UPGRADE) or black-holed (both upgrade timeouts fire); then traffic after 15 s, "+
 		"3 heartbeat periods, traffic again; oracle: multiset received == sent on both sides, no OnClose, completed upgrade => websocket on both sides, disturbed => both sides agree on the transport and traffic keeps flowing; non-trivial = a message handed to Send before the upgrade completed, or a disturbed upgrade followed by traffic")
-	rapidGuard(t, "C07", c07Check)
+	rapidGuard(t, c07Prop, c07Check)
 	runRapid(t, c07Check, tierN(12000, 160000), func(t *rapid.T) {
 		c := genC07Case(t)
 		f, nt := evalC07(c)
